@@ -11,6 +11,7 @@ package criteria_ordering
 
 //@ func (*WeakestCriteriaOrderingResolver).OrderCriteria
 //@   property C15 C16 C01 C07 C09 C20
+//@   indexsafe
 //@   requires model.distinctCriteria(params.Criteria) && model.validParams(*listener, params.MethodParameters) && model.coversAll(*listener, params.MethodParameters, params.Criteria)
 //@   ensures [permutation] result != nil && fresh(result) && fresh(*result) && model.rearranged(*result, params.Criteria)
 //@   ensures [the_listeners_ascending_ranking] forall k int :: 0 <= k && k < len(*result) ==> (*result)[k].Id == model.rankedId(*listener, params, k)
@@ -18,6 +19,7 @@ package criteria_ordering
 
 //@ func (*StrongestCriteriaOrderingResolver).OrderCriteria
 //@   property C15 C16 C01 C07 C09 C20
+//@   indexsafe
 //@   requires model.distinctCriteria(params.Criteria) && model.validParams(*listener, params.MethodParameters) && model.coversAll(*listener, params.MethodParameters, params.Criteria)
 //@   ensures [permutation] result != nil && fresh(result) && fresh(*result) && model.rearranged(*result, params.Criteria)
 //@   ensures [exact_reverse_of_weakest] forall k int :: 0 <= k && k < len(*result) ==> (*result)[k].Id == model.rankedId(*listener, params, len(*result) - 1 - k)
@@ -28,6 +30,7 @@ package criteria_ordering
 
 //@ func (*StrongestByProbabilityCriteriaOrderingResolver).OrderCriteria
 //@   property C15 C16 C01 C07 C09 C20
+//@   indexsafe
 //@   requires model.distinctCriteria(params.Criteria) && model.validParams(*listener, params.MethodParameters) && model.coversAll(*listener, params.MethodParameters, params.Criteria)
 //@   ensures [permutation] result != nil && fresh(result) && fresh(*result) && model.rearranged(*result, params.Criteria)
 //@   loop 1 invariant [ctx] fresh(result) && len(result) == criteriaCount && criteriaCount == len(*criteria) && model.rearranged(*criteria, params.Criteria)
@@ -35,7 +38,9 @@ package criteria_ordering
 
 //@ func shuffleCriteria
 //@   property C15 C16 C01 C07 C09 C20
+//@   indexsafe
 //@   fnparam generator ensures 0.0 <= result && result < 1.0
+//@   nopanic
 //@   requires model.distinctCriteria(*criteria)
 //@   ensures [permutation] result != nil && fresh(result) && fresh(*result) && model.rearranged(*result, *criteria)
 //@   loop 1 invariant [ctx] fresh(copied) && len(copied) == criteriaCount && criteriaCount == len(*criteria) && i < criteriaCount
@@ -57,6 +62,7 @@ package criteria_ordering
 // Parse: the ordering is the one the request names; none named stays empty (the first registered resolver is then taken)
 //@ func Parse
 //@   property C15 C16 C20 C07 C09 C01
+//@   indexsafe
 //@   ensures [as_requested_empty_when_absent] fresh(result) && result.Ordering == (decoded_has(*props, "Ordering") ? decoded_str(*props, "Ordering") : "")
 
 // the ordering named in the request (the first registered one when none is named); unknown names are rejected
@@ -84,39 +90,46 @@ package criteria_ordering
 // ---- registered names (what a request must say to select this object; what error messages list)
 //@ func (*RandomCriteriaOrderingResolver).Identifier
 //@   property C15 C20 C01 C03 C04 C05 C06 C07 C08 C09 C11 C12 C13 C14 C16 C17 C18 C19
+//@   indexsafe
 //@   nopanic
 //@   ensures [name] result == "random"
 
 // ---- registered names (what a request must say to select this object; what error messages list)
 //@ func (*StrongestByProbabilityCriteriaOrderingResolver).Identifier
 //@   property C15 C20 C01 C03 C04 C05 C06 C07 C08 C09 C11 C12 C13 C14 C16 C17 C18 C19
+//@   indexsafe
 //@   nopanic
 //@   ensures [name] result == "strongestByProbability"
 
 // ---- registered names (what a request must say to select this object; what error messages list)
 //@ func (*StrongestCriteriaOrderingResolver).Identifier
 //@   property C15 C20 C01 C03 C04 C05 C06 C07 C08 C09 C11 C12 C13 C14 C16 C17 C18 C19
+//@   indexsafe
 //@   nopanic
 //@   ensures [name] result == "strongest"
 
 // ---- registered names (what a request must say to select this object; what error messages list)
 //@ func (*WeakestByProbabilityCriteriaOrderingResolver).Identifier
 //@   property C15 C20 C01 C03 C04 C05 C06 C07 C08 C09 C11 C12 C13 C14 C16 C17 C18 C19
+//@   indexsafe
 //@   nopanic
 //@   ensures [name] result == "weakestByProbability"
 
 // ---- registered names (what a request must say to select this object; what error messages list)
 //@ func (*WeakestCriteriaOrderingResolver).Identifier
 //@   property C15 C20 C01 C03 C04 C05 C06 C07 C08 C09 C11 C12 C13 C14 C16 C17 C18 C19
+//@   indexsafe
 //@   nopanic
 //@   ensures [name] result == "weakest"
 
 // ---- the random ordering: a permutation of the criteria drawn from the request's seed
 //@ func parseRandomOrderingProps
 //@   property C15 C16 C01 C07 C09 C20
+//@   indexsafe
 //@   ensures [seed_as_requested] fresh(result) && result.RandomSeed == (decoded_has(*props, "RandomSeed") ? decoded_int(*props, "RandomSeed") : 0)
 //@ func (*RandomCriteriaOrderingResolver).OrderCriteria
 //@   property C15 C16 C01 C07 C09 C20
+//@   indexsafe
 //@   fnparam .Generator pure
 //@   requires model.distinctCriteria(params.Criteria)
 //@   ensures [permutation] result != nil && fresh(result) && fresh(*result) && model.rearranged(*result, params.Criteria)
